@@ -8,6 +8,7 @@ from ..astutil import (src, flat_guards, calls_in, call_name, kwarg, const_value
 from ..cfg import cfg_of, Prov
 from ..effects import Effects
 from .. import variants as V
+from .. import kernel
 
 PROPERTY = "C07"
 TITLE = "Instantiating a generic class substitutes everywhere and mutates nothing"
@@ -383,6 +384,14 @@ def r5_who_may_construct(repo):
     return obs
 
 
+def r6_has_type_variables(repo):
+    return kernel.has_type_variables_fold(repo, "C07-R6")
+
+
+def r7_constructors_store_verbatim(repo):
+    return kernel.constructors_verbatim(repo, "C07-R7")
+
+
 def _annotated(f, pname):
     a = f.node.args
     for x in a.posonlyargs + a.args + a.kwonlyargs:
@@ -398,6 +407,9 @@ def rules():
         RuleSpec("C07-R3", "constructors copy the mutable things they are given", 4, r3_copies),
         RuleSpec("C07-R4", "TypeConstructor.new leaves the generic class untouched", 1, r4_constructor_untouched),
         RuleSpec("C07-R5", "who may construct a ParameterizedType, and around which constructor", 9, r5_who_may_construct),
+        RuleSpec("C07-R6", "has_type_variables (the condition of every substitution) is the structural fold", 7,
+                 r6_has_type_variables),
+        RuleSpec("C07-R7", "type constructors store their arguments as given", 10, r7_constructors_store_verbatim),
     ]
 
 
